@@ -102,6 +102,7 @@ package ratelimit
 //@   ensures invalid-address-is-an-error: !addrValid(ip) ==> err != nil && !drop && !allowlisted
 //@   ensures any-refused-for-everyone: addrValid(ip) && l.refuseANY && old(req.Question[0].Qtype) == 255 ==> drop && !allowlisted && err == nil
 //@   ensures allowlisted-never-dropped: allowlisted ==> !drop && err == nil
+//@   ensures allowlist-consulted-before-backoff-and-window: addrValid(ip) && !(l.refuseANY && old(req.Question[0].Qtype) == 255) && allowedBy(l.allowlist, ip) ==> !drop
 //@   ensures allowlisted-touch-no-counter: allowlisted || err != nil ==>
 //@             (forall j string :: chas[l.reqCounters.cache][j] == old(chas[l.reqCounters.cache][j]) && cval[l.reqCounters.cache][j] == old(cval[l.reqCounters.cache][j]) &&
 //@               chas[l.hitCounters.cache][j] == old(chas[l.hitCounters.cache][j]) && cval[l.hitCounters.cache][j] == old(cval[l.hitCounters.cache][j])) && rk == old(rk)
